@@ -231,3 +231,11 @@ Proof.
   intros Hf Hb ws H. destruct (build_counter_hyps ops vs Hf Hb) as [_ [_ [_ [H4 H5]]]].
   unfold quorum. apply two_thirds_fail; assumption.
 Qed.
+
+Lemma build_total ops vs : weights_fit ops -> build ops = Some vs ->
+  total_weight vs = spec_total ops /\ total_weight vs = sumN (sorted_weights vs) /\
+  total_weight vs <= max_total /\ v_len vs = length (sorted_weights vs).
+Proof.
+  intros Hf Hb. destruct (build_counter_hyps ops vs Hf Hb) as [_ [H2 [H3 [H4 H5]]]].
+  repeat split; assumption.
+Qed.
